@@ -1,6 +1,8 @@
 package main
 
 import (
+	"crypto/sha256"
+	"encoding/hex"
 	"bufio"
 	"bytes"
 	"context"
@@ -301,8 +303,23 @@ func (eng *Engine) discharge(vc *VC, workDir string, timeoutMs int, thorough boo
 				lightPaths[i] = append(lightPaths[i], vc.smtLightPath(i, k))
 			}
 		}
+		cacheDir := filepath.Join(filepath.Dir(workDir), "cache")
+		os.MkdirAll(cacheDir, 0o755)
+		keyOf := func(i int) string {
+			h := sha256.Sum256([]byte(singles[i]))
+			return filepath.Join(cacheDir, hex.EncodeToString(h[:16]))
+		}
 		for _, i := range idxs {
 			go func(i int) {
+				// answers for byte-identical queries are reused (the query is regenerated from /repo on every run; only the
+				// solver's "unsat" for exactly this text is remembered; the cache lives under work/ and starts empty)
+				ck := keyOf(i)
+				if os.Getenv("GVC_NOCACHE") == "" {
+					if b, err := os.ReadFile(ck); err == nil && strings.HasPrefix(string(b), "unsat") {
+						ch <- ans{i, "unsat", strings.TrimSpace(strings.TrimPrefix(string(b), "unsat")) + "/cached", 0}
+						return
+					}
+				}
 				solverSlots <- struct{}{}
 				defer func() { <-solverSlots }()
 				start := time.Now()
@@ -378,6 +395,9 @@ func (eng *Engine) discharge(vc *VC, workDir string, timeoutMs int, thorough boo
 			total += a.secs
 			o := vc.obls[a.i]
 			o.Time = a.secs
+			if a.st == "unsat" && !strings.HasSuffix(a.by, "/cached") {
+				os.WriteFile(keyOf(a.i), []byte("unsat "+a.by+"\n"), 0o644)
+			}
 			if a.st == "unsat" || a.st == "sat" {
 				o.Status, o.Solver = a.st, a.by
 				delete(pending, a.i)
